@@ -3,10 +3,16 @@
 # Case formats (see harness/cmd/lalprobe/c15.go):
 #   c15.run   <kind:cap,...> <op,op,...> [tag]
 #   c15.group <cap> <subs f|w|r ...> <op,op,...> [tag]
+#   c15.rgroup <cap> <rtsp kind,...> <op,op,...> [tag]   rtsp subscribers of a real logic.Group
 #   c15.consts                      (implementation only: side conditions of the theorems)
+#   c15.join <client bytes>         (implementation only: an rtmp player enters the fan-out set)
+#   c15.cost <kind> <batches> <n>   (implementation only, measured: cost of a write to a full queue)
+# rtsp kinds: rtp / wsrtp (both tracks interleaved) or rtp.<v><a> / wsrtp.<v><a>, one letter per track:
+#   n = never SETUP, u = UDP sockets, t = interleaved channel, b = both transports
 #   c15.rt <n> <size> <wto> <pace>  (implementation only, thorough tier: measured runtime part)
 # ops: p<buf>|<buf>  r<i>.<n>  f<i>.<n>  d<i>  s      (group: p<type>:<ts>:<payload>)
-# output per consumer: codes;pre;q;h;state;wire
+# output per consumer: codes;pre;q;h;state;wire;extra   (extra = connection write calls; rtsp kinds:
+#   calls/session byte counter/datagrams on the video socket/datagrams on the audio socket)
 import os
 from lib import vf
 from lib.vf import Case
@@ -17,7 +23,12 @@ RULE = ("per session kind (rtmp Write / Writev, http-flv, http-ts, rtsp interlea
         "boundary sweep of the stall/resume point (0..cap+2 reads between publishes), of the queue-full instant relative to each write, "
         "of the byte offset at which a blocked write fails, of sweep/dispose positions, with 1..3 consumers (stalled, slow, healthy, twins "
         "around a disturber); then seeded random schedules; the same through a real logic.Group (fan-out + Tick sweep) for flv/ws-flv/rtmp "
-        "subscribers.  A case is non-trivial when the model output shows at least one rejected or dropped unit, a closed connection or a "
+        "subscribers; rtsp subscribers in every set-up state (per track: never SETUP / UDP sockets / interleaved channel / both): a player "
+        "with one, both or no track set up that stops reading, with packets of its own and of the other track between sweeps, next to a "
+        "reading twin, UDP tracks with datagrams read back from loopback sockets, random schedules over random set-up states, and the same "
+        "through a real logic.Group (OnRtpPacket + Tick); the join of a real rtmp player (handshake..play over a conn that stalls inside "
+        "OnNewRtmpSubSession, with a message written from there); the measured cost of 100 writes to a full queue per kind.  "
+        "A case is non-trivial when the model output shows at least one rejected or dropped unit, a closed connection or a "
         "partially delivered unit (distinct by kind set, capacities and outcome signature)")
 ASSUMPTIONS = [
     "PARTIAL: the latency bound and the firing of the OS write deadline are runtime behaviour; the thorough tier measures them on loopback TCP (coverage.runtime), no theorem covers them",
@@ -25,12 +36,41 @@ ASSUMPTIONS = [
     "a net.Conn.Write is all-or-nothing except for the explicit fail-after-n-bytes op; net.Buffers on a non-TCP conn is one Write per buffer",
     "byte counters do not wrap (2^64 bytes)",
     "RTSP-over-WebSocket command responses (OPTIONS/PLAY/... replies) still use two connection writes; only media packets are covered",
+    "rtsp UDP tracks: a datagram write succeeds while the session is not disposed (loopback sockets, packets <= 1412 bytes); the harness disposes the "
+    "sub session when its command connection closed itself, as rtsp.Server.handleTcpConnect does after RunLoop returns",
+    "rtsp subscribers are driven with the SDP of the harness (video = payload type 96 / channel 0, audio = 97 / channel 2)",
+    "cost of a write to a full queue: measured (fastest of 3 batches of 100 writes, bound 1 ms per write = about 600 x the measured 1-2 us); the proof part "
+    "is c15_one_attempt (one connection write call per unit in every queue state) tied to the code by the counted Write/Writev calls",
 ]
 FULL_OUTPUT = True
 TIMEOUT = 900
 
-PLAIN = {"rtmp": "rtmp", "rtmpv": "rtmp", "flv": "flv", "wsflv": "flv", "ts": "ts", "wsts": "ts", "rtp": "rtp", "wsrtp": "rtp"}
-WS = {"wsflv", "wsts", "wsrtp"}
+class _Plain(dict):
+    def __missing__(self, k):
+        return dict.__getitem__(self, k.split(".")[0])
+
+
+PLAIN = _Plain({"rtmp": "rtmp", "rtmpv": "rtmp", "flv": "flv", "wsflv": "flv", "ts": "ts", "wsts": "ts", "rtp": "rtp", "wsrtp": "rtp"})
+
+
+class _Ws(set):
+    def __contains__(self, k):
+        return set.__contains__(self, k.split(".")[0])
+
+
+WS = _Ws({"wsflv", "wsts", "wsrtp"})
+
+
+def setup_of(kind):
+    """rtsp: transport letters (video, audio)"""
+    return kind.split(".")[1] if "." in kind else "tt"
+
+
+def rtp_track(raw):
+    """0 video, 1 audio, None: payload type outside the SDP (96 / 97)"""
+    if len(raw) < 2:
+        return None
+    return {96: 0, 97: 1}.get(raw[1] & 0x7F)
 FAMILIES = [["rtmp", "rtmpv"], ["flv", "wsflv"], ["ts", "wsts"], ["rtp", "wsrtp"]]
 RTMP_CHUNK = 128          # chunk size of the python reference chunker used for c15.run units
 FLV_HEADER = b"FLV\x01\x05\0\0\0\x09\0\0\0\0"
@@ -238,6 +278,139 @@ def tok(b):
     return hex_tok(b)
 
 
+def mk_rtp(rng, track, n=None):
+    """an RTP packet of the video (0) / audio (1) track of the harness' SDP"""
+    if n is None:
+        n = rng.choice([1, 20, 111, 200])
+    pt = 96 + track
+    return bytes([0x80, pt | (0x80 if rng.random() < 0.3 else 0)]) + rng.randrange(1 << 16).to_bytes(2, "big") + \
+        rng.randrange(1 << 32).to_bytes(4, "big") + b"\x12\x34\x56\x78" + bytes(rng.randrange(256) for _ in range(n))
+
+
+SETUPS_TCP = ["tn", "nt", "nn", "tt"]                     # interleaved only
+SETUPS_UDP = ["un", "nu", "uu", "ut", "tu"]               # at least one UDP track
+SETUPS_BOTH = ["bn", "nb", "bt", "ub", "bb"]              # a track with both transports (SETUP sent twice)
+_PLAY_BYTES = None
+
+
+def play_bytes():
+    """handshake, connect, createStream, play from the independent python RTMP client encoder of C04"""
+    global _PLAY_BYTES
+    if _PLAY_BYTES is None:
+        from gen import c04enc as E
+        c = E.Client(None)
+        c.raw("hs", E.handshake("simple", 7))
+        _PLAY_BYTES = c.connect().create_stream().play(b"c15").bytes()
+    return _PLAY_BYTES
+
+
+def gen_rtsp_setup(tier, rng):
+    thorough = tier == "thorough"
+    P = lambda t, n=None: "p" + tok(mk_rtp(rng, t, n))
+    # ---- F-34: a player that set up ONE track (or none) and stops reading: the packets of the other track must not
+    #      keep it alive.  Fill its queue with packets of its own track, sweep, then per sweep interval a packet of
+    #      each track.
+    for base in ("rtp", "wsrtp"):
+        for su in SETUPS_TCP:
+            own = [t for t in (0, 1) if su[t] == "t"]
+            other = [t for t in (0, 1) if su[t] != "t"]
+            for cap in (1, 2, 3):
+                fill = [P(own[k % len(own)]) for k in range(cap + 2)] if own else []
+                for variant in range(3):
+                    ops = list(fill) + ["s"]
+                    for _ in range(3):
+                        if variant in (0, 2) and other:
+                            ops.append(P(other[0]))
+                        if variant in (1, 2) and own:
+                            ops.append(P(own[0]))
+                        if variant == 1 and not own:
+                            ops.append(P(rng.choice([0, 1])))
+                        ops.append("s")
+                    yield Case(line([("%s.%s" % (base, su), cap)], ops), cls="rtsp-setup-stall")
+                # the same next to a reading twin: the twin (consumer 1) gets every packet of its track and stays
+                ops = []
+                for k in range(cap + 2):
+                    ops += [P(own[0] if own else 0), "r1.9"]
+                ops.append("s")
+                for _ in range(3):
+                    ops += [P(other[0] if other else 0), P(own[0] if own else 1), "r1.9", "s"]
+                if own:
+                    yield Case(line([("%s.%s" % (base, su), cap), ("%s.%s" % (base, su), cap)], ops, "healthy1"), cls="rtsp-setup-healthy")
+    # ---- UDP tracks: datagrams, counter, sweeps, dispose
+    for su in SETUPS_UDP + (SETUPS_BOTH if thorough else SETUPS_BOTH[:2]):
+        for base in (("rtp", "wsrtp") if thorough or su in ("un", "ut") else ("rtp",)):
+            kind = "%s.%s" % (base, su)
+            udp = [t for t in (0, 1) if su[t] in "ub"]
+            quiet = [t for t in (0, 1) if su[t] == "n"]
+            # every interval has a datagram: kept
+            yield Case(line([(kind, 2)], ["s", P(udp[0]), "s", P(udp[0]), P(1 - udp[0]), "s", P(udp[0]), "s"]), cls="rtsp-udp")
+            # an interval with packets of the other track only
+            yield Case(line([(kind, 2)], ["s", P(udp[0]), "s", P(1 - udp[0]), P(1 - udp[0]), "s", P(udp[0]), P(1 - udp[0]), "s", P(udp[0])]), cls="rtsp-udp")
+            # dispose closes the sockets; write failure on the command connection ends the session
+            yield Case(line([(kind, 1)], [P(0), P(1), "d0", P(0), P(1), "s"]), cls="rtsp-udp")
+            yield Case(line([(kind, 1)], [P(0), P(1), P(0), P(1), "f0.3", P(0), P(1), "s", "s"]), cls="rtsp-udp")
+            yield Case(line([(kind, 1)], [P(0, 1400), P(1, 1400), P(0, 0), P(1, 0), "p80", "p-", "p8062000100000001000000020102", "r0.9"]), cls="rtsp-udp")
+    # ---- random schedules over random set-up states
+    allsu = SETUPS_TCP + SETUPS_UDP + SETUPS_BOTH
+    for _ in range(260 if not thorough else 2500):
+        ncons = rng.choice([1, 2, 3])
+        pool = SETUPS_TCP if rng.random() < 0.6 else allsu
+        cons = [("%s.%s" % (rng.choice(["rtp", "wsrtp"]), rng.choice(pool)), rng.choice([1, 1, 2, 3])) for _ in range(ncons)]
+        ops = []
+        for _ in range(rng.randrange(4, 24)):
+            x = rng.random()
+            i = rng.randrange(ncons)
+            if x < 0.5:
+                ops.append(P(rng.choice([0, 0, 1])))
+            elif x < 0.7:
+                ops.append("r%d.%d" % (i, rng.choice([1, 1, 2, 9])))
+            elif x < 0.74:
+                ops.append("f%d.%d" % (i, rng.choice([0, 1, 5, 1000])))
+            elif x < 0.78:
+                ops.append("d%d" % i)
+            elif x < 0.8:
+                ops.append(rng.choice(["p80", "p8062000100000001000000020102"]))
+            else:
+                ops.append("s")
+        yield Case(line(cons, ops), cls="rtsp-setup-random")
+    # ---- through a real Group: OnRtpPacket -> feedRtpPacket, Tick -> disposeInactiveSessions
+    for cap in (1, 2):
+        for su in SETUPS_TCP + ["un", "ut"]:
+            own = [t for t in (0, 1) if su[t] in "tu"]
+            ops = [P(own[k % len(own)] if own else 0) for k in range(cap + 2)] + ["s"]
+            for _ in range(3):
+                ops += [P(0), P(1), "s"]
+            yield Case("c15.rgroup %d %s %s" % (cap, "rtp.%s,wsrtp.%s" % (su, su), ",".join(ops)), cls="rgroup-stall")
+        # a reading consumer next to stalled ones
+        ops = []
+        for k in range(6):
+            ops += [P(0), P(1), "r0.9"]
+            if k % 2 == 1:
+                ops.append("s")
+        yield Case("c15.rgroup %d rtp.tn,rtp.tn,wsrtp.nt %s healthy0" % (cap, ",".join(ops)), cls="rgroup-healthy")
+    for _ in range(40 if not thorough else 400):
+        kinds = ["%s.%s" % (rng.choice(["rtp", "wsrtp"]), rng.choice(SETUPS_TCP + ["un", "ut"])) for _ in range(rng.choice([1, 2, 3]))]
+        ops = []
+        for _ in range(rng.randrange(4, 20)):
+            x = rng.random()
+            i = rng.randrange(len(kinds))
+            if x < 0.55:
+                ops.append(P(rng.choice([0, 1])))
+            elif x < 0.75:
+                ops.append("r%d.%d" % (i, rng.choice([1, 2, 9])))
+            elif x < 0.8:
+                ops.append("d%d" % i)
+            else:
+                ops.append("s")
+        yield Case("c15.rgroup %d %s %s" % (rng.choice([1, 2, 3]), ",".join(kinds), ",".join(ops)), cls="rgroup")
+    # ---- the moment an rtmp player enters the fan-out set (implementation only)
+    yield Case("c15.join " + tok(play_bytes()), cls="join")
+    # ---- measured: cost of a session write to a consumer whose queue is full (implementation only)
+    for kind in ("rtp", "wsrtp", "rtp.tn", "rtmp", "rtmpv", "flv", "wsflv", "ts", "wsts"):
+        yield Case("c15.cost %s 3 100" % kind, cls="cost")
+
+
+
 def pub_op(rng, fam, kinds, big=False):
     """publish op; for families with a Writev kind the unit may be several buffers"""
     if fam == "rtmp" and rng.random() < 0.5:
@@ -306,6 +479,9 @@ def gen_cases(tier, rng):
             yield Case(line([(kind, 2)], [pub_op(rng, famname, fam, big=True) for _ in range(4)] + ["r0.1", pub_op(rng, famname, fam, big=True)]), cls="big")
     # rtsp: payload type that is not in the SDP is not written at all
     yield Case(line([("rtp", 2), ("wsrtp", 2)], ["p80620001000000010000000201", "p8060000100000001000000020102", "p80", "p-", "r0.1", "p80e1000100000001000000020304"]), cls="rtp-route")
+    # ---- rtsp set-up states, Group with rtsp subscribers, join, cost
+    for c in gen_rtsp_setup(tier, rng):
+        yield c
     # ---- seeded random schedules
     nrand = 1500 if not thorough else 12000
     for _ in range(nrand):
@@ -377,9 +553,17 @@ def parse_out(out):
     res = []
     for part in out.split(" "):
         g = part.split(";")
-        if len(g) != 6:
+        if len(g) != 7:
             return None
-        res.append(dict(codes=g[0], pre=num(g[1]), q=num(g[2]), h=int(g[3]), state=g[4], wire=tok_bytes(g[5])))
+        x = dict(codes=g[0], pre=num(g[1]), q=num(g[2]), h=int(g[3]), state=g[4], wire=tok_bytes(g[5]))
+        e = g[6].split("/")
+        x["att"] = num(e[0])
+        if len(e) == 4:
+            x["acc"] = num(e[1])
+            x["udp"] = [[] if d == "-" else [tok_bytes(t) for t in d.split(",")] for d in e[2:4]]
+        elif len(e) != 1:
+            return None
+        res.append(x)
     return res
 
 
@@ -418,11 +602,10 @@ def expected_units(kind, bufs):
     payload = b"".join(bufs)
     fam = PLAIN[kind]
     if fam == "rtp":
-        if len(payload) < 2:
-            return None
+        t = rtp_track(payload)
+        if t is None or setup_of(kind)[t] not in "tb":
+            return None        # not in the SDP, or the track has no interleaved channel
         payload = ref_interleaved(payload)
-        if payload is None:
-            return None
     if kind in WS:
         return ref_ws_frame(payload)
     return payload
@@ -457,6 +640,10 @@ def oracle(c, out):
         return oracle_consts(out)
     if op == "c15.rt":
         return None
+    if op == "c15.join":
+        return oracle_join(out)
+    if op == "c15.cost":
+        return oracle_cost(f, out)
     if out.startswith(("blocked", "stuck")) or "blocked@" in out:
         return (False, "the publisher side was parked waiting for a consumer: " + out)
     if out.startswith(("panic@", "crash@", "timeout")):
@@ -469,6 +656,8 @@ def oracle(c, out):
             return oracle_run(f, cons)
         if op == "c15.group":
             return oracle_group(f, cons)
+        if op == "c15.rgroup":
+            return oracle_rgroup(f, cons)
     except ValueError as e:
         return (False, "received stream is not well framed: %s" % e)
     return None
@@ -494,23 +683,43 @@ def oracle_consts(out):
     return (True, "")
 
 
-def rtp_full_stall(ops, i, cap):
-    """rtsp kinds count accepted packets, not written bytes: a consumer that never reads,
-    whose queue (capacity + the one the writer holds) was already full at a sweep, accepts
-    nothing afterwards and must be gone after the next sweep"""
-    pubs, full_at_sweep = 0, False
+def rtsp_reference(ops, i, kind, cap):
+    """An rtsp subscriber that never reads (no r / f op aimed at it), from the property and RFC 2326 alone:
+    a packet is HANDED OVER when its track has a transport and that transport takes it - a UDP socket always
+    (until the session is disposed), the command connection while fewer than cap+1 writes are outstanding (the
+    queue plus the one the writer goroutine is parked with).  The session's byte counter is the bytes handed over;
+    a sweep that finds nothing handed over since the previous sweep disconnects the session.
+    Returns None when the consumer reads or has a track with both transports (which of the two results counts is
+    lal's business), else dict(must_close, counter, dgrams=[video, audio])."""
+    su = setup_of(kind)
+    if "b" in su:
+        return None
+    outstanding, gone, counter = 0, False, 0
+    dgrams = [[], []]
+    since, swept, must_close = 0, False, False
     for o in ops:
         if o[0] in "rf" and int(o[1:].split(".")[0]) == i:
-            return False
+            return None
+        if o[0] == "d" and int(o[1:]) == i:
+            gone = True
         if o[0] == "p":
             raw = b"".join(tok_bytes(t) for t in o[1:].split("|"))
-            if len(raw) >= 2 and (raw[1] & 0x7F) in (96, 97):
-                pubs += 1
+            t = rtp_track(raw)
+            if t is None or gone:
+                continue
+            if su[t] == "u":
+                dgrams[t].append(raw)
+                counter += len(raw)
+                since += 1
+            elif su[t] == "t" and outstanding < cap + 1:
+                outstanding += 1
+                counter += len(raw)
+                since += 1
         if o[0] == "s":
-            if full_at_sweep:
-                return True
-            full_at_sweep = pubs >= cap + 1
-    return False
+            if swept and since == 0:
+                must_close = gone = True
+            swept, since = True, 0
+    return dict(must_close=must_close or gone, counter=counter, dgrams=dgrams)
 
 
 def sched_facts(ops, ncons):
@@ -597,8 +806,13 @@ def oracle_run(f, cons):
                     return (False, "consumer %d: %d messages accepted by the queue but %d received after it drained" % (i, want, n))
         if stalled[i] and PLAIN[kind] != "rtp" and x["state"] != "c":
             return (False, "consumer %d completed no write between two sweeps and is still connected" % i)
-        if PLAIN[kind] == "rtp" and x["state"] != "c" and rtp_full_stall(ops, i, int(cap)):
-            return (False, "consumer %d (rtsp) never reads, its queue was full at a sweep, and it is still connected after the next sweep" % i)
+        if x["att"] != len(offered):
+            return (False, "consumer %d (%s): %d connection write calls for %d units handed to the connection (a rejected write must be "
+                           "dropped at once, not retried: the publisher holds the group lock)" % (i, kind, x["att"], len(offered)))
+        if PLAIN[kind] == "rtp":
+            why = oracle_rtsp(i, kind, int(cap), ops, x)
+            if why:
+                return (False, why)
         if tag == "healthy1" and i == 1:
             if x["state"] != "o" or x["wire"] != b"".join(offered):
                 return (False, "consumer 1 reads everything at once but did not receive every published unit (others stalled)")
@@ -606,6 +820,76 @@ def oracle_run(f, cons):
         a, b = cons[0], cons[2]
         if (a["codes"], a["wire"], a["state"], a["q"], a["h"]) != (b["codes"], b["wire"], b["state"], b["q"], b["h"]):
             return (False, "consumers 0 and 2 have the same kind, capacity and read schedule but ended differently (disturbed by consumer 1)")
+    return (True, "")
+
+
+def oracle_rtsp(i, kind, cap, ops, x):
+    if "acc" not in x:
+        return "consumer %d (%s): no session byte counter in the output" % (i, kind)
+    ref = rtsp_reference(ops, i, kind, cap)
+    su = setup_of(kind)
+    pubs = [b"".join(tok_bytes(t) for t in o[1:].split("|")) for o in ops if o[0] == "p"]
+    for t in (0, 1):
+        mine = [r for r in pubs if rtp_track(r) == t]
+        if su[t] not in "ub" and x["udp"][t]:
+            return "consumer %d (%s): datagrams on a track that has no UDP transport" % (i, kind)
+        if not is_subseq(x["udp"][t], mine):
+            return "consumer %d (%s): the datagrams of track %d are not a sub-sequence of its published packets" % (i, kind, t)
+    if ref is None:
+        return None
+    if ref["must_close"] and x["state"] != "c":
+        return ("consumer %d (%s) never reads; between two sweeps nothing was handed to any of its connections "
+                "(queue full / track never SETUP), and it is still connected" % (i, kind))
+    if x["acc"] != ref["counter"]:
+        return ("consumer %d (%s): the session counts 0x%x bytes as written, 0x%x bytes were handed to its connections "
+                "(the liveness sweep compares this counter)" % (i, kind, x["acc"], ref["counter"]))
+    if x["udp"] != ref["dgrams"]:
+        return "consumer %d (%s): datagrams received differ from the packets of its UDP tracks published while it was connected" % (i, kind)
+    return None
+
+
+def oracle_rgroup(f, cons):
+    """rtsp subscribers of a real Group: same rules as c15.run with every consumer at the given capacity"""
+    kinds = f[2].split(",")
+    g = ["c15.run", ",".join("%s:%s" % (k, f[1]) for k in kinds), f[3]] + f[4:]
+    if len(g) > 3 and g[3] == "healthy0":
+        x = cons[0]
+        pubs = [[tok_bytes(t) for t in o[1:].split("|")] for o in f[3].split(",") if o[0] == "p"]
+        offered = [u for u in (expected_units(kinds[0], b) for b in pubs) if u is not None]
+        if x["state"] != "o" or x["wire"] != b"".join(offered):
+            return (False, "consumer 0 reads everything at once but did not receive every published packet of its track (others stalled)")
+        g = g[:3]
+    return oracle_run(g, cons)
+
+
+def oracle_join(out):
+    kv = dict(p.split("=") for p in out.split(" ") if "=" in p)
+    if not out.startswith("sub "):
+        return (False, "the rtmp player never reached the observer: " + out)
+    if kv.get("write") != "ok":
+        return (False, "an rtmp player was handed to the upper layer (OnNewRtmpSubSession: it enters the group's fan-out set) while its "
+                       "connection still writes synchronously; it stalls, a publisher message arrives: the write is %s - under the group "
+                       "mutex this parks the publisher and every other subscriber (%s)" % (kv.get("write"), out))
+    if num(kv.get("chan", "0")) < 1 or num(kv.get("wto", "0")) < 1 or num(kv.get("full_behavior", "0")) != 1:
+        return (False, "an rtmp player entered the fan-out set without write queue / write timeout / ReturnError: " + out)
+    if "session-stuck" in out:
+        return (False, "the session did not end after its connection was closed")
+    return (True, "")
+
+
+COST_US_PER_WRITE = 1000     # measured 1-3 us per write; the bound is per-write mean of the fastest of 3 batches
+
+
+def oracle_cost(f, out):
+    kv = dict(p.split("=") for p in out.split(" ") if "=" in p)
+    if "best_us" not in kv:
+        return (False, "cost measurement did not complete: " + out)
+    n = int(kv["n"])
+    if int(kv["attempts"]) != n * int(f[2]):
+        return (False, "%s: %s connection write calls for %d session writes to a full queue (retry)" % (f[1], kv["attempts"], n))
+    if int(kv["best_us"]) > n * COST_US_PER_WRITE:
+        return (False, "%s: %d session writes to a consumer whose queue is full took the publisher %s us (fastest of %s batches; bound "
+                       "%d us): a stalled consumer delays the publisher and every other subscriber" % (f[1], n, kv["best_us"], f[2], n * COST_US_PER_WRITE))
     return (True, "")
 
 
@@ -667,6 +951,9 @@ def oracle_group(f, cons):
             complete = b"".join(units)
         if stalled[i] and x["state"] != "c":
             return (False, "consumer %d completed no write between two sweeps and is still connected" % i)
+        if x["att"] != len(msgs) + (2 if ch in "fw" else 0):
+            return (False, "consumer %d: %d connection write calls for %d messages%s (a rejected write must be dropped at once, not retried)"
+                           % (i, x["att"], len(msgs), " + response header + FLV header" if ch in "fw" else ""))
         if tag == "healthy0" and i == 0:
             if x["state"] != "o" or x["wire"] != complete:
                 return (False, "consumer 0 reads everything at once but did not receive every published message (others stalled)")
@@ -693,7 +980,7 @@ def neighbors(c, rng):
 def shrink(ctx, c):
     """remove schedule ops while the oracle still fails on the implementation"""
     f = c.line.split(" ")
-    if f[0] not in ("c15.run", "c15.group"):
+    if f[0] not in ("c15.run", "c15.group", "c15.rgroup"):
         return c.line
     idx = 2 if f[0] == "c15.run" else 3
     ops = f[idx].split(",")
@@ -717,7 +1004,7 @@ def shrink(ctx, c):
 
 # ------------------------------------------------------------------ pipeline: generic diff + implementation-only ops
 def run(ctx, cases, cov, violations, known_hits, notes):
-    impl_only = [c for c in cases if c.line.split(" ")[0] in ("c15.consts", "c15.rt")]
+    impl_only = [c for c in cases if c.line.split(" ")[0] in ("c15.consts", "c15.rt", "c15.join", "c15.cost")]
     rest = [c for c in cases if c not in impl_only]
     import sys
     vf.generic_diff(sys.modules[__name__], ctx, rest, cov, violations, known_hits, notes)
@@ -731,6 +1018,19 @@ def run(ctx, cases, cov, violations, known_hits, notes):
         cov["oracle_failed"] += 1
         path = vf.write_replay(ctx["prop"], dict(property=ctx["prop"], case=lines[0], impl=outs[0], oracle=False, why=r[1], broken=None))
         violations.append(("oracle", "side condition of the theorems fails on the working tree: " + r[1], path, False))
+    # implementation-only ops judged by the oracle: the join of an rtmp player, the cost of a write to a full queue
+    jl = [c.line for c in impl_only if c.line.split(" ")[0] in ("c15.join", "c15.cost")]
+    if jl:
+        jo = vf.run_lines(ctx["probe"], jl, full=True, timeout=120)
+        cov["join_cost"] = [dict(case=vf.short(l, 60), observed=o) for l, o in zip(jl, jo)]
+        for l, o in zip(jl, jo):
+            r = oracle(Case(l), o)
+            cov["evaluations"] += 1
+            cov["oracle_evaluated"] += 1
+            if r is not None and not r[0]:
+                cov["oracle_failed"] += 1
+                path = vf.write_replay(ctx["prop"], dict(property=ctx["prop"], case=l, impl=o, oracle=False, why=r[1], broken=None))
+                violations.append(("oracle", r[1], path, False))
     if ctx["tier"] == "thorough" or os.environ.get("C15_RUNTIME") == "1":
         rt_lines = ["c15.rt 4000 8192 1000 250", "c15.rt 1500 65536 500 500"]
         rouT = vf.run_lines(ctx["probe"], rt_lines, full=True, timeout=300)
